@@ -9,6 +9,7 @@ impl Limb {
     /// Panics if `shift` overflows `Limb::BITS`.
     #[inline(always)]
     pub const fn shl(self, shift: u32) -> Self {
+        assert!(shift < Self::BITS, "attempt to shift left with overflow");
         Limb(self.0 << shift)
     }
 
